@@ -878,7 +878,12 @@ async def run(*coroutines: Coroutine, catch_sigterm: bool = True) -> None:
         try:
             await task
         except asyncio.CancelledError:
-            pass
+            # a cancellation arriving during the cleanup must not hide a simulation error
+            err = circuit.error
+            if (tnum < 0 and run_error is None
+                    and err is not None and not isinstance(err, asyncio.CancelledError)):
+                _logger.error("Simulation task failed: %r", err)
+                run_error = err
         except Exception as err:
             if tnum < 0:
                 msg = "Simulation task failed"
